@@ -481,9 +481,97 @@ func loggerWriterID(x any) string {
 	return fmt.Sprintf("%T", w)
 }
 
+// c09Others: while an instance is read-only, OTHER instances live on: they are built, reset their encapsulation and take
+// new pairs, get identifiers, maps, levels and loggers, are pushed into, released and constructed anew. None of that is a
+// method call on the read-only instance, so nothing observable about it changes - and when the flag is lifted the state
+// is exactly what it was.
+func c09Others(c *core.Ctx, r *core.Rng) {
+	isCond := r.Bool()
+	t := c09Build(core.Mix(uint64(c.Seed), uint64(c.Idx)), isCond)
+	// the instance has itself been through a reset of its encapsulation before it was frozen
+	if isCond {
+		t.cd.SetEncap("[")
+		t.cd.SetEncap()
+		t.cd.SetEncap(`"`)
+	} else {
+		t.s.SetEncap("[")
+		t.s.SetEncap()
+		t.s.SetEncap(`"`)
+	}
+	if !t.isInit() {
+		return
+	}
+	t.setRO(true)
+	str := func() string {
+		if isCond {
+			return t.cd.String()
+		}
+		return t.s.String()
+	}
+	before, text := t.take(), str()
+	desc := map[string]any{"target": t.desc}
+	var did []string
+	for i, n := 0, r.Range(2, 6); i < n; i++ {
+		switch r.Intn(6) {
+		case 0:
+			o := stackage.And().Push("o1", "o2").SetEncap()
+			o.SetEncap([]string{"<", ">"})
+			o.SetEncap("'")
+			_ = o.String()
+			did = append(did, "another Stack: SetEncap(); SetEncap(<,>); SetEncap(')")
+		case 1:
+			o := stackage.Cond("ok", stackage.Ne, "ov").SetEncap()
+			o.SetEncap([]string{"{", "}"})
+			_ = o.String()
+			did = append(did, "another Condition: SetEncap(); SetEncap({,})")
+		case 2:
+			o := stackage.List().SetID("other").SetCategory("other-cat").SetAuxiliary(map[string]any{"o": 1}).SetLogLevel(stackage.AllLogLevels).SetDelimiter("+")
+			o.SetFIFO(true).SetNoPadding(true).SetParen(true)
+			o.Push(1, 2, 3)
+			did = append(did, "another Stack: identifiers, map, levels, options, pushes")
+		case 3:
+			o := stackage.Or().Push("gone")
+			k := o
+			o.Free()
+			n2 := stackage.Basic(2).Push("new").SetID("n2")
+			k.SetNoPadding(true).SetID("kept")
+			_ = n2
+			did = append(did, "another Stack released (a copy of its handle kept and used), a new one constructed")
+		case 4:
+			var o stackage.Condition
+			o.Init()
+			o.SetKeyword("ik").SetOperator(stackage.Ge).SetExpression(7).SetLogLevel("debug").SetID("oc")
+			o.Init()
+			did = append(did, "another Condition initialised, configured, initialised again")
+		default:
+			var o stackage.Stack
+			o.Marshal("OR", "m1", []any{"CONDITION", "mk", stackage.Eq, "mv"})
+			_ = o.String()
+			did = append(did, "another Stack decoded by Marshal")
+		}
+	}
+	desc["meanwhile"] = did
+	after, text2 := t.take(), str()
+	if d := Diff(before, after, DiffOpts{Raw: true}); d != "" || text != text2 {
+		c.Violatef("changed-by-other-instances", desc, "a read-only instance changed while only OTHER instances were worked on: %s (String %q -> %q)", d, text, text2)
+		return
+	}
+	t.setRO(false)
+	ro := DiffOpts{IgnoreOpt: roBit}
+	if d := Diff(before, t.take(), ro); d != "" || str() != text {
+		c.Violatef("changed-by-other-instances:after-unfreeze", desc, "after the flag was lifted the state is not what it was when it was set: %s (String %q -> %q)", d, text, str())
+		return
+	}
+	c.Count("others-at-work-while-read-only")
+}
+
 func c09Run(c *core.Ctx, idx int) {
 	single, _ := c09Tier(c.Tier)
 	r := c.Rng
+	if idx >= single && idx%20 == 13 {
+		c09Others(c, r)
+		return
+	}
 	nS, nC := len(c09SCalls), len(c09CCalls)
 	if idx < single {
 		k := idx % ((nS + nC) * c09Instances)
